@@ -14,8 +14,8 @@ import pilgen
 from core import Result
 
 LEVEL = "proof"
-LEVEL_NOTE = ("graph-level exactness of the arrays (closure, representatives, templates) and soundness of the seeding are "
-              "theorems; the completeness half of the simulation is validated by correspondence and by the oracle")
+LEVEL_NOTE = ("exactness of the arrays w.r.t. the semantic link closure is a theorem for both layouts (struct: every strand placed); "
+              "equality with the executable naive spec procedure and the model<->code tie are validated by correspondence")
 
 # examples under /repo/examples that compile without NUPACK, with the arguments used
 EXAMPLES = [
